@@ -326,6 +326,7 @@ def lockstep(ctx, report, rule, facts, config):
     report.touched(add_stage, config)
     report.touched(add_group, config)
     from . import semq as Q
+    n_decided = 0
     for ctor, body_ in (("add_stage", add_stage), ("add_group", add_group)):
         ev, ends = Q.sem(ctx, facts, body_)
         rets = [e for e in ends if e.kind == "return"]
@@ -364,12 +365,15 @@ def lockstep(ctx, report, rule, facts, config):
                     else:
                         n += 100
                 cnts.add(n + (100 if looped else 0))
+            n_decided += 1 if cnts == set([1]) else 0
             report.ob(rule, "%s/%s" % (ctor, tab), cnts == set([1]),
                       "%s appends to `%s` %s time(s) per call (expected exactly 1 on every path)" % (ctor, tab, sorted(cnts)), site=body_.loc(), config=config)
             if ctor == "add_group":
                 report.ob(rule, "add_group/index/%s" % tab, idx_ok, "add_group appends to %s[stage] with the `stage` parameter" % tab if idx_ok else
                           "add_group appends to %s at another index than the `stage` parameter" % tab, site=body_.loc(), config=config)
-    report.floor(rule, "shape-changing calls on lock-step tables", n_mut, 10, config=config)   # the ten appends of add_stage and add_group; the four of insert may sit in a helper
+    # what excludes a vacuous pass is the ten (constructor, table) obligations above, each of which needs exactly one append on
+    # every way; where the appends are written (in the constructor, in a helper, behind a private trait) does not matter
+    report.floor(rule, "(constructor, table) appends decided", n_decided, 10, config=config)
     # moves out of the tables: only StagesBuilder::build may move `stages` out
     n_moves = 0
     for b in sorted(facts.bodies.values(), key=lambda b: b.key):
